@@ -2,6 +2,7 @@ package c17
 
 import (
 	"bytes"
+	"sync/atomic"
 	"fmt"
 	"sort"
 	"time"
@@ -167,4 +168,67 @@ func executeUDP(c *fw.Ctx, ru *Run) {
 	c.Case(fw.Hash("udp", ru.Rate, ru.Burst, ru.TotalRate, ru.TotalBurst, ru.LatencyMs, ru.BufSize, ru.Conns, ru.Datagram), reads >= 3, func() any {
 		return map[string]any{"run": ru, "reads": reads}
 	})
+}
+
+// runStorm: many short rounds in which eight connections, each with a full burst of data ready, enter the same
+// total limiter at (nearly) the same instant while the bucket holds exactly one burst. Only one of them may read at
+// once; the others have to wait for tokens that arrive at 100 B/s. A limiter path that checks and takes tokens in two
+// steps lets two of them through.
+func runStorm(c *fw.Ctx) {
+	rounds := c.Pick(250, 2500)
+	const B = 1000
+	for k := 0; k < rounds; k++ {
+		if !c.Mine(k) {
+			continue
+		}
+		gate := fmt.Sprintf("c17gate-%d-%d", c.Shard, k)
+		routes := drive.J([]any{map[string]any{"handle": []any{
+			map[string]any{"handler": "throttle", "total_read_bytes_per_second": 100, "total_read_burst_size": B},
+			map[string]any{"handler": "verif_sink", "name": "sink", "bufsize": B, "gate": gate}}}})
+		app, err := drive.StartApp(routes, "20s")
+		if err != nil {
+			c.Violation("C17 config rejected", err.Error(), routes)
+			return
+		}
+		const conns = 8
+		servers := make([]*vnet.End, conns)
+		clients := make([]*vnet.End, conns)
+		data := make([]byte, B)
+		var firstRead atomic.Int64
+		for i := range servers {
+			clients[i], servers[i] = drive.NewPair(fmt.Sprintf("c17storm-%d-%d-%d", c.Shard, k, i))
+			servers[i].OnRead = func(n int, total int64, t time.Duration) {
+				if n > 0 {
+					firstRead.CompareAndSwap(0, int64(t)+1)
+				}
+			}
+			_, _ = clients[i].Write(data)
+		}
+		for i := range servers {
+			app.L.Inject(servers[i])
+		}
+		held := hmods.OpenGate(gate, conns) // all eight are at the start line: go
+		c.ObsMax("storm_connections_released_together", int64(held))
+		time.Sleep(12 * time.Millisecond)
+		total := int64(0)
+		for i := range servers {
+			total += servers[i].BytesRead.Load()
+		}
+		now := vnet.Now()
+		elapsed := time.Duration(0)
+		if f := firstRead.Load(); f > 0 {
+			elapsed = now - time.Duration(f-1)
+		}
+		for i := range clients {
+			clients[i].Abort()
+		}
+		app.Stop()
+		allowed := float64(B) + 100*elapsed.Seconds() + 1
+		if float64(total) > allowed {
+			c.Violation("C17 total-rate-exceeded [simultaneous first reads]", fmt.Sprintf("%d connections entered a full total limiter (burst %d, 100 B/s) together: %d bytes had been read %v after the first read, allowed %.0f", conns, B, total, elapsed, allowed),
+				map[string]any{"round": k, "bytes": total})
+		}
+		c.Obs("storm_rounds", 1)
+		c.Case(fw.Hash("storm", k%16), total > 0, func() any { return map[string]any{"round": k, "bytes_read": total} })
+	}
 }
